@@ -5,6 +5,8 @@ import KmipProofs.WireGen
 import KmipProps.C01
 import KmipProps.C07
 import KmipGen.Skeleton
+import KmipGen.Dataflow
+import KmipModel.ExpectFlow
 /-
   C07, generated obligations: the ordered operation skeletons of `Server.serve` and `Server.handleBatch`,
   regenerated from /repo's server.go on every run, are the ones the session model was written against
@@ -84,5 +86,10 @@ theorem GenC07_wire_item_over_the_wire (H : Nat → ItemIn → HRes) : ∀ (i : 
     simp only [viewsOfN, List.getElem?_cons_succ, this]
     congr 3
     omega
+
+/-- dataflow tie: every assignment in handleBatch, target and source (the header copies, the per-item copies, the results) -/
+theorem GenC07_handleBatch_dataflow : KmipGen.flow_Server_handleBatch = ExpectFlow.flow_Server_handleBatch := by decide +kernel
+/-- ... and the assignments to the Response among them are exactly the copies the message model makes -/
+theorem GenC07_response_copies : Wire.under "resp".toList KmipGen.flow_Server_handleBatch = Wire.respFlow := by decide +kernel
 
 end Kmip
